@@ -429,6 +429,8 @@ def perform(S, op):
         return "ok"
     except HarnessError:
         raise
+    except ImportError as e:  # privilege-dropped workers cannot import what warmup() did not load
+        raise HarnessError("import inside a worker failed (extend warmup()): %r" % (e,))
     except Exception as e:  # a refusal is an observation
         return "raised:" + type(e).__name__
     finally:
@@ -462,52 +464,85 @@ def pristine_clone_gitdir():
 # --------------------------------------------------------------------------- abstraction (state key)
 
 
+def _loose(files, S, sha):
+    """(type, body) of an object: from the snapshot's loose objects, else through dulwich (packs)."""
+    e = files.get(GITDIR + b"/objects/" + sha[:2] + b"/" + sha[2:])
+    if e is not None:
+        full = zlib.decompress(e[3])
+        hdr, body = full.split(b"\0", 1)
+        return hdr.split(b" ")[0], body
+    from dulwich.repo import Repo
+
+    r = Repo(os.path.join(S, "wt"))
+    try:
+        o = r.object_store[sha]
+        return o.type_name, o.as_raw_string()
+    finally:
+        r.close()
+
+
+def _commit_tree(files, S, sha):
+    t, body = _loose(files, S, sha)
+    if t != b"commit":
+        raise HarnessError("expected a commit: %r" % sha)
+    lines = body.split(b"\n")
+    return lines[0][5:], [ln[7:] for ln in lines[1:4] if ln.startswith(b"parent ")]
+
+
+def _resolve(files, name):
+    for _ in range(6):
+        e = files.get(GITDIR + b"/" + name)
+        if e is None or e[1] != "f":
+            pk = files.get(GITDIR + b"/packed-refs")
+            if pk is not None:
+                for ln in pk[3].split(b"\n"):
+                    if ln.endswith(b" " + name):
+                        return ln.split(b" ")[0]
+            return None
+        c = e[3].strip()
+        if c.startswith(b"ref: "):
+            name = c[5:]
+            continue
+        return c
+    return None
+
+
 def state_key(S, snapshot):
     """Canonical key of a sandbox: work tree image, HEAD *tree*, index entries (stat fields dropped),
     stash stack as trees, am state, and everything protected.  Dropped: commit ids / branch names /
     reflogs (no operation in the menu reads them: targets are given as commit ids, checkout/switch
     diff against HEAD's tree, reset --hard and stash against the index), index stat fields (a stat
-    match is only a shortcut for the content comparison that is otherwise made), objects/."""
-    from dulwich.repo import Repo
+    match is only a shortcut for the content comparison that is otherwise made), objects/.
+    Computed from the snapshot by independent readers (refmodels.indexfile; loose objects by zlib)."""
+    from engines.refmodels import indexfile
 
-    wtpart = tuple(e for e in snapshot if region(e[0]) == "wt" and e[0] != WT)
+    files = {e[0]: e for e in snapshot}
+    wtpart = tuple(e for e in snapshot if e[0].startswith(WT + b"/") and region(e[0]) == "wt")
     prot = tuple(e for e in snapshot if protected(e[0]))
     am = tuple(e for e in snapshot if e[0].startswith(GITDIR + b"/rebase-apply/"))
+    has_git = GITDIR in files
     head_tree = None
     index_items = None
-    stash = ()
-    if os.path.isdir(os.path.join(S, "wt", ".git")):
-        try:
-            r = Repo(os.path.join(S, "wt"))
-        except Exception as e:
-            index_items = "repo-unreadable:" + type(e).__name__
-        else:
+    stash = []
+    if has_git:
+        h = _resolve(files, b"HEAD")
+        if h is not None:
+            head_tree = _commit_tree(files, S, h)[0]
+        ix = files.get(GITDIR + b"/index")
+        if ix is not None:
             try:
-                try:
-                    head_tree = r[r.refs[b"HEAD"]].tree
-                except KeyError:
-                    head_tree = None
-                try:
-                    idx = r.open_index()
-                    index_items = tuple((p, getattr(e, "mode", None), getattr(e, "sha", None), getattr(e, "flags", 0) & 0x3000)
-                                        for p, e in sorted(idx.items()))
-                except Exception as e:
-                    index_items = "index-unreadable:" + type(e).__name__
-                try:
-                    from dulwich.stash import Stash
-
-                    st = []
-                    for ent in Stash.from_repo(r).stashes():
-                        cm = r[ent.new_sha]
-                        st.append((cm.tree, tuple(r[p].tree for p in cm.parents)))
-                    stash = tuple(st)
-                except Exception as e:
-                    stash = "stash-unreadable:" + type(e).__name__
-            finally:
-                r.close()
-    h = hashlib.sha1(repr((wtpart, prot, am, head_tree, index_items, stash)).encode()).hexdigest()
-    feats = {"head": head_tree is not None, "stash": bool(stash), "am": bool(am), "wt": os.path.isdir(os.path.join(S, "wt", ".git"))}
-    return h, feats
+                index_items = tuple((e.name, e.mode, e.sha, e.stage) for e in indexfile.parse(ix[3]).entries)
+            except indexfile.IndexFormatError as e:
+                index_items = "unreadable:" + e.code
+        lg = files.get(GITDIR + b"/logs/refs/stash")
+        if lg is not None and (GITDIR + b"/refs/stash") in files:
+            for ln in lg[3].split(b"\n"):
+                if ln:
+                    t, parents = _commit_tree(files, S, ln.split(b" ")[1])
+                    stash.append((t, tuple(_commit_tree(files, S, p)[0] for p in parents)))
+    k = hashlib.sha1(repr((wtpart, prot, am, head_tree, index_items, tuple(stash))).encode()).hexdigest()
+    feats = {"head": head_tree is not None, "stash": bool(stash), "am": bool(am), "wt": has_git}
+    return k, feats
 
 
 # --------------------------------------------------------------------------- judge
@@ -592,7 +627,8 @@ def transition(acc, cfg, snapshot, history, op, S, diagnose=True):
     None when the transition violated the property (successors are not explored)."""
     confine.restore(snapshot, S)
     prepare(S, op)
-    before = confine.snap(S)
+    # prepare() only touches allow-listed bookkeeping (objects/, refs/stash, its reflog) — except for clone (S/src)
+    before = confine.snap(S) if op[0] == "clone" else snapshot
     res = perform(S, op)
     after = confine.snap(S)
     acc.count("transitions")
@@ -612,6 +648,17 @@ def transition(acc, cfg, snapshot, history, op, S, diagnose=True):
             acc.count("unsafe_trees_refused_or_skipped")
         if op[0] == "clone":
             finish_clone(S)
+            after = confine.snap(S)
+        elif op[0] == "stash_apply" and res != "ok":
+            # a planted stash that could not be popped is withdrawn again (the menu can plant it again)
+            for rel in (GITDIR + b"/refs/stash", GITDIR + b"/logs/refs/stash"):
+                old = [e for e in snapshot if e[0] == rel]
+                p = os.path.join(os.fsencode(S), rel)
+                if old:
+                    with open(p, "wb") as f:
+                        f.write(old[0][3])
+                elif os.path.lexists(p):
+                    os.unlink(p)
             after = confine.snap(S)
         return after, res
     pred, detail, focus = verdict
@@ -716,7 +763,7 @@ POISON = E(b"git~1", "f")  # sorts after 'a' and 'dir'; refused under the defaul
 POISON_NESTED = E(b"dir", "D", (E(b".git", "f"),))  # refused in every configuration; sorts after 'a'
 
 
-def fam_reuse(link_ids, file_kinds, nested_links, poison):
+def fam_reuse(link_ids, file_kinds, nested_links, poison, poison_for=None, in_tree=True):
     """The name-reuse family for sequences: the slot 'a' takes every kind (absent, file, symlink,
     directory with child 'a', gitlink); optional companions."""
     slot = [()]
@@ -727,9 +774,9 @@ def fam_reuse(link_ids, file_kinds, nested_links, poison):
     slot += [(E(b"a", "G"),)]
     out = list(slot)
     for comp in poison:
-        out += [canon(s + (comp,)) for s in slot if s]
-    # in-tree link targets get their target
-    out += [canon((E(b"a", "L:dir"), E(b"dir", "D", (E(b"a", "f"),))))]
+        out += [canon(s + (comp,)) for s in slot if s and (poison_for is None or s[0][1] in poison_for)]
+    if in_tree:  # an in-tree link target comes with its target
+        out += [canon((E(b"a", "L:dir"), E(b"dir", "D", (E(b"a", "f"),))))]
     seen, res = set(), []
     for s in out:
         if s not in seen:
@@ -809,16 +856,28 @@ def work_level(task):
     return acc, found
 
 
-def bfs(ctx, label, cfg, universe, tree_ops, plain_ops, max_depth, first_ops=None, with_wt=True, max_states=None):
-    """Breadth-first search from the initial sandbox.  first_ops: explicit operation list for depth 1
-    (otherwise the menu)."""
+def bfs(ctx, label, cfg, universe, tree_ops, plain_ops, max_depth, first_ops=None, with_wt=True, max_states=None, prefix=()):
+    """Breadth-first search from the initial sandbox (after running `prefix`).  first_ops: explicit
+    operation list for depth 1 (otherwise the menu).  max_depth counts operations after the prefix."""
     setup_process()
     store = fresh_dir("c17store")
     os.chmod(store, 0o777)
     init = initial_state(cfg, with_wt=with_wt)
     feats0 = {"head": False, "stash": False, "am": False, "wt": with_wt}
-    seen = {"<init:%s:%s>" % (cfg, with_wt)}
-    level = [(init, feats0, [])]
+    hist0 = []
+    if prefix:
+        S = fresh_dir("c17pre")
+        for op in prefix:
+            init, _r = transition(ctx.acc, cfg, init, hist0, op, S)
+            if init is None:
+                raise HarnessError("prefix %r violates the property: %r" % (prefix, list(ctx.acc.viol)))
+            hist0.append(op)
+        key0, feats0 = state_key(S, init)
+        rmtree(S)
+        seen = {key0}
+    else:
+        seen = {state_key(None, init)[0]}
+    level = [(init, feats0, hist0)]
     depth = 0
     states = 1
     per_level = []
@@ -868,8 +927,8 @@ def bfs(ctx, label, cfg, universe, tree_ops, plain_ops, max_depth, first_ops=Non
         level = nxt if keep else []
         depth += 1
     rmtree(store)
-    return {"search": label, "config": cfg, "universe": len(universe) if universe else 0, "first_ops": len(first_ops) if first_ops else None,
-            "states": states, "new_states_per_level": per_level, "depth_completed": depth, "capped": capped}
+    return {"search": label, "config": cfg, "prefix": [op_name(o) for o in prefix], "universe": len(universe) if universe else 0,
+            "first_ops": len(first_ops) if first_ops else None, "states": states, "new_states_per_level": per_level, "depth_completed": depth, "capped": capped}
 
 
 def _rm(p):
@@ -918,51 +977,48 @@ def run(ctx):
     setup_process()
     q = ctx.quick
     check_model_against_git(ctx.acc)
+    ctx.coverage["warmup_outcomes"] = dict(sorted(warmup().classes.items()))
     stats = []
 
     all_links = ["L:" + t for t in LINK_IDS]
     few = ["f", "L:updir", "L:hooks", "G"]
     mid = ["f", "x", "f4755", "f0666", "L:updir", "L:absdir", "L:upfile", "L:gitfile", "L:gitnew", "G"]
 
-    # ---- A. refusal matrix: single checkouts of adversarial trees through every entry point
+    # ---- A. refusal matrix: ONE checkout of every adversarial tree through every entry point
     famA = fam_single(LEAF_KINDS)
     famA += fam_nested(NAMES, NAMES, few if q else LEAF_KINDS)
     famA += fam_same_name(mid if q else LEAF_KINDS)
     famA += fam_slash_name(mid if q else LEAF_KINDS)
     famA += fam_pairs([b"a", b".git", b"git~1", b"dir"] if q else [b"a", b"dir", b".git", b".GIT", b"git~1", b"..", b"a/b", ABSNAME], few if q else mid)
     famA = _dedupe(famA)
-    entryA = ["checkout", "reset_hard", "reset_mixed", "stash_apply", "patch_add", "am"] if q else \
-        ["checkout", "checkout_force", "switch", "reset_hard", "reset_mixed", "stash_apply", "patch_add", "patch_del", "am"]
+    entryA = ["checkout", "reset_hard", "stash_apply", "patch_add", "am"] if q else \
+        ["checkout", "checkout_force", "switch", "reset_hard", "stash_apply", "patch_add", "patch_del", "am"]
+    unbornA = ["checkout"] if q else ["checkout", "reset_hard"]
     cfgsA = ["default", "ntfs-off+hfs-on"] if q else list(CONFIGS)
-    ctx.coverage["family_A_trees"] = len(famA)
-    # clone: fresh directory, default configuration (a clone cannot carry a local configuration)
+    base = (("reset_soft", ()),)  # HEAD = a commit of the empty tree, nothing checked out
+    # clone: fresh directory, default configuration (a clone cannot carry a repository-local configuration)
     stats.append(bfs(ctx, "A-clone", "default", None, None, None, 1, first_ops=single_step_ops(famA, ["clone"]), with_wt=False))
     for cfg in cfgsA:
-        # from the empty work tree: reset --soft to the tree (what a fetch into the checked-out branch leaves) then the
-        # entry point; expressed as depth-1 ops on the state reached by reset_soft would multiply states, so the
-        # entry points that need a HEAD get one by a first reset_soft step inside the explicit op list.
-        stats.append(bfs(ctx, "A-direct", cfg, None, None, None, 1, first_ops=single_step_ops(famA, [k for k in entryA if k not in ("stash_apply", "am")])))
-    # entry points that need a HEAD commit (reset_index, planted stash, am): start from HEAD = empty tree
-    for cfg in cfgsA:
-        stats.append(bfs_from(ctx, "A-on-empty-commit", cfg, [("reset_soft", ())],
-                              single_step_ops(famA, [k for k in entryA if k in ("stash_apply", "am")])))
-        # reset --soft T ; reset_index()  == the tail of a clone, under every configuration
+        stats.append(bfs(ctx, "A-entry-points", cfg, None, None, None, 1, first_ops=single_step_ops(famA, entryA), prefix=base))
+        stats.append(bfs(ctx, "A-unborn-HEAD", cfg, None, None, None, 1, first_ops=single_step_ops(famA, unbornA)))
+        # reset --soft T ; WorkTree.reset_index()  == the tail of a clone, under every configuration
         stats.append(bfs_pairs(ctx, "A-reset_index", cfg, [[("reset_soft", t), ("reset_index", None)] for t in famA]))
 
-    # ---- B. sequences: name re-use with a different kind, every entry point, depth 3
+    # ---- B. sequences: the same names come back with a different kind, through every entry point
+    planB = []
     if q:
-        uniB = fam_reuse(["updir", "hooks", "gitfile"], ["f"], [], [POISON])
-        tree_ops = ["checkout", "checkout_force", "reset_hard", "reset_mixed", "reset_soft", "stash_apply", "patch_add", "patch_del", "am"]
-        depthB = 3
-        cfgsB = ["default"]
+        planB.append(("B-depth2", "default", fam_reuse(["updir", "hooks", "gitfile"], ["f"], [], [POISON]), TREE_OPS, 2))
+        planB.append(("B-depth3", "default", fam_reuse(["updir", "gitfile"], ["f"], [], [POISON], poison_for=("L:updir",), in_tree=False),
+                      ["checkout", "checkout_force", "reset_hard", "reset_mixed", "reset_soft", "stash_apply", "patch_add"], 3))
     else:
-        uniB = fam_reuse(LINK_IDS, ["f", "x", "f4755"], ["updir", "gitfile"], [POISON, POISON_NESTED])
-        tree_ops = TREE_OPS
-        depthB = 3
-        cfgsB = ["default", "ntfs-off"]
-    ctx.coverage["family_B_trees"] = len(uniB)
-    for cfg in cfgsB:
-        stats.append(bfs(ctx, "B-sequences", cfg, uniB, tree_ops, PLAIN_OPS, depthB))
+        uniT = fam_reuse(LINK_IDS, ["f", "x"], ["updir"], [POISON, POISON_NESTED], poison_for=("f", "L:updir", "L:gitfile", "D"))
+        planB.append(("B-depth3", "default", uniT, TREE_OPS, 3))
+        planB.append(("B-depth2", "ntfs-off", fam_reuse(LINK_IDS, list(FILE_MODES), ["updir", "gitfile"], [POISON, POISON_NESTED]), TREE_OPS, 2))
+    for label, cfg, uni, tops, depth in planB:
+        stats.append(bfs(ctx, label, cfg, uni, tops, PLAIN_OPS, depth, prefix=base))
+    uniB = planB[0][2]
+    ctx.coverage["family_A_trees"] = len(famA)
+    ctx.coverage["family_B"] = [{"search": p[0], "config": p[1], "trees": len(p[2]), "tree_ops": p[3], "plain_ops": PLAIN_OPS, "depth": p[4]} for p in planB]
 
     n = ctx.acc.n
     ctx.level = "model_checking"
@@ -978,8 +1034,8 @@ def run(ctx):
              "a transition restores the state, runs one real dulwich operation on a tree built from raw bytes and compares recursive snapshots "
              "of everything outside the work tree and of .git minus the bookkeeping allow-list; unsafe paths judged by an independent model "
              "cross-checked against C git.",
-        bounds={"names": len(NAMES), "leaf_kinds": len(LEAF_KINDS), "configs_A": cfgsA, "configs_B": cfgsB, "depth_B": depthB,
-                "tree_ops_B": tree_ops, "plain_ops_B": PLAIN_OPS},
+        bounds={"names": len(NAMES), "leaf_kinds": len(LEAF_KINDS), "configs_A": cfgsA, "entry_points_A": ["clone", "reset_index"] + entryA,
+                "entry_points_A_unborn_HEAD": unbornA},
     )
     for s in famA[:3] + uniB[:3]:
         ctx.acc.sample(show(s))
@@ -992,6 +1048,33 @@ def run(ctx):
         "Linux semantics only: DOS drive prefixes, backslash separators and reserved device names are ordinary names here",
         "pool workers drop root privileges (uid nobody) so that a confinement failure cannot leave the scratch area",
     ]
+
+
+def warmup():
+    """Run every operation kind once in the parent so that all lazily imported modules are loaded
+    before the pool forks (workers drop privileges and may not be able to read the interpreter's
+    library directory afterwards)."""
+    import dulwich.am  # noqa: F401
+    import dulwich.patch  # noqa: F401
+    import dulwich.porcelain  # noqa: F401
+    import dulwich.stash  # noqa: F401
+    import dulwich.submodule  # noqa: F401
+    import unicodedata  # noqa: F401
+
+    t1 = (E(b"a", "f"), E(b"b", "L:sib"), E(b"g", "G"))
+    t2 = (E(b"a", "D", (E(b"a", "x"),)), E(b".g\xe2\x80\x8cit", "f"))
+    sub = Acc()
+    for cfg in ("default", "ntfs-on+hfs-on"):
+        case_sequence(sub, cfg, [("clone", t1)])
+        case_sequence(sub, cfg, [("reset_soft", ()), ("checkout", t1), ("switch", ()), ("checkout_force", t1), ("reset_mixed", t2), ("stash_push", None),
+                                 ("stash_pop", None), ("reset_hard", t1), ("stash_apply", t1), ("patch_add", t2), ("patch_del", t1), ("reset_index", None),
+                                 ("am", t2), ("am", t2), ("am_abort", None), ("reset_soft", t2), ("reset_hard", ())])
+    # a deliberately failing am leaves state for am_abort
+    case_sequence(sub, "default", [("reset_soft", ()), ("am", (E(b".git", "f"),)), ("am_abort", None)])
+    # the tracer path
+    with confine.MutationTracer(lambda p: False, "/nonexistent"):
+        pass
+    return sub
 
 
 def _dedupe(seq):
@@ -1039,16 +1122,6 @@ def work_prefixed(task):
     finally:
         rmtree(S)
     return acc, keys
-
-
-def bfs_from(ctx, label, cfg, prefix, ops):
-    keys = set()
-    tasks = [(cfg, prefix, part, None) for part in split(ctx.order(ops), ctx.jobs * 3)]
-    for acc, k in pmap(work_prefixed, tasks, jobs=ctx.jobs):
-        ctx.acc.merge(acc)
-        keys |= k
-    return {"search": label, "config": cfg, "prefix": [op_name(o) for o in prefix], "first_ops": len(ops), "states": len(keys),
-            "depth_completed": len(prefix) + 1, "capped": False}
 
 
 def bfs_pairs(ctx, label, cfg, seqs):
